@@ -1,18 +1,40 @@
 #!/usr/bin/env python3
-"""Apply a textual mutation to a file under /repo, run a command, always revert (git checkout).
-usage: mut.py <relpath> <old> <new> -- <cmd...>"""
-import subprocess, sys
+"""Run a command against a MUTATED SCRATCH COPY of /repo/src (never touches /repo itself).
+
+usage: mut.py <relpath-under-/repo> <old> <new> -- <cmd...>
+       mut.py --patch <file.diff> -- <cmd...>          (a unified diff against /repo, applied with `patch -p1`)
+
+The copy lives under $TMPDIR (default /tmp), the command runs with WATCHDOG_SRC=<copy>/src (harness/loader.py and
+every check import watchdog from there) and the copy is removed afterwards.
+"""
+import os
+import shutil
+import subprocess
+import sys
+import tempfile
+
 i = sys.argv.index("--")
-rel, old, new = sys.argv[1:4]
 cmd = sys.argv[i + 1:]
-path = "/repo/" + rel
-src = open(path).read()
-if src.count(old) != 1:
-    print(f"mut: pattern occurs {src.count(old)} times", file=sys.stderr); sys.exit(3)
-open(path, "w").write(src.replace(old, new))
+tmp = tempfile.mkdtemp(prefix="verif-mut-", dir=os.environ.get("TMPDIR", "/tmp"))
 try:
-    rc = subprocess.call(cmd)
+    shutil.copytree("/repo/src", os.path.join(tmp, "src"), ignore=shutil.ignore_patterns("__pycache__", "*.egg-info"))
+    if sys.argv[1] == "--patch":
+        p = subprocess.run(["patch", "-p1", "-d", tmp, "-i", os.path.abspath(sys.argv[2])], capture_output=True, text=True)
+        if p.returncode != 0:
+            print("mut: patch failed:\n" + p.stdout + p.stderr, file=sys.stderr)
+            sys.exit(3)
+    else:
+        rel, old, new = sys.argv[1:4]
+        assert rel.startswith("src/"), "path must be relative to /repo and start with src/"
+        path = os.path.join(tmp, rel)
+        src = open(path).read()
+        if src.count(old) != 1:
+            print(f"mut: pattern occurs {src.count(old)} times", file=sys.stderr)
+            sys.exit(3)
+        open(path, "w").write(src.replace(old, new))
+    env = dict(os.environ, WATCHDOG_SRC=os.path.join(tmp, "src"))
+    rc = subprocess.call(cmd, env=env)
 finally:
-    subprocess.call(["git", "-C", "/repo", "checkout", "--", rel])
+    shutil.rmtree(tmp, ignore_errors=True)
 print("mut: rc =", rc)
 sys.exit(0)
